@@ -31,11 +31,20 @@ class CsvProjectIo(ProjectIoInterface):
         -------
             :class:`Parameters
         """
+        # labels are text, whatever they look like ('1.10', 'true', 'none', ...)
+        header = pd.read_csv(file_name, skipinitialspace=True, sep=sep, nrows=0).columns
+        label_columns = [column for column in header if column.lower() == "label"]
         df = pd.read_csv(
             file_name,
             skipinitialspace=True,
-            na_values=["None", "none"],
             sep=sep,
+            dtype={column: str for column in label_columns},
+            keep_default_na=False,
+            na_values={
+                column: ["", "None", "none", "nan", "NaN"]
+                for column in header
+                if column not in label_columns
+            },
             float_precision="round_trip",
         )
         df.columns = [column.lower() for column in df.columns]
